@@ -223,9 +223,11 @@ class LinalgShim:
         if ord not in (None, 2, "fro"):
             raise Inconclusive("linalg.norm with ord=%r" % (ord,))
         sq = (x * x.conjugate()).real.sum(axis=axis) if any(isinstance(e, SC) for e in x.ravel()) else (x * x).sum(axis=axis)
+        if isinstance(sq, np.ndarray) and sq.ndim == 0:
+            sq = sq.item()
         if isinstance(sq, np.ndarray):
-            return _map(sq, lambda e: SR.lift(e).sqrt())
-        return SR.lift(sq).sqrt()
+            return _map(sq, lambda e: SR.lift(e).sqrt_of_sum_of_squares())
+        return SR.lift(sq).sqrt_of_sum_of_squares()
 
     def det(self, m):
         m = lift_arr(m)
